@@ -37,6 +37,11 @@ func (s *UnionDatasetSource) ReadEntities(ctx context.Context, token DatasetCont
 		)
 	}
 
+	if len(s.DatasetSources) == 0 {
+		// (a definition with an empty list is accepted; reading from it used to index into the empty list)
+		return fmt.Errorf("UnionDatasetSource has no datasets to read from")
+	}
+
 	d.activeIdx = 0
 	if len(d.Tokens) == 0 {
 		for _, dss := range s.DatasetSources {
